@@ -79,11 +79,22 @@ theorem source_underrun_only_when_missing (k : Kind) (hk : k ≠ .bytesIO) (d : 
       Kernels.liftAns pos (readAns k d closed pos n) := by
   rw [Kernels.readTurn_kernel d closed cap pos n hn hp, readFromStreamRaw_eq_readAns k hk d closed _ pos n hp]
 
+/-- `isEndOfStream` (the branch for streams other than `io.BytesIO`; one turn of its retry loop, translated into
+    `GenK.eosTurn`): "at the end" exactly when nothing is left and the stream is closed, an underrun exactly when nothing is
+    left and it is still open, "not at the end" with the octet stepped back over otherwise - the model's `eosAns`; the
+    iteration `stops` after the last object on exactly this answer -/
+theorem source_end_of_stream_turn_is_model (k : Kind) (hk : k ≠ .bytesIO) (d : Bytes) (closed : Bool) (cap pos : Nat) :
+    GenK.eosTurn (Kernels.rdOf d closed cap) (pos : Int) = Kernels.liftEos pos (eosAns k d closed pos) :=
+  Kernels.eosTurn_kernel k hk d closed cap pos
+
 /-- non-vacuity: four octets asked at position 1 of `1 2 3 4 5 6`, two octets per read: gathered over two reads; of
     `1 2 3` still open: underrun, position back at 1; closed: EndOfStreamError -/
 example : GenK.readTurn (Kernels.rdOf [1, 2, 3, 4, 5, 6] false 1) 1 4 = .ok (some [2, 3, 4, 5], 5) := by rfl
 example : GenK.readTurn (Kernels.rdOf [1, 2, 3] false 1) 1 4 = .ok (none, 1) := by rfl
 example : GenK.readTurn (Kernels.rdOf [1, 2, 3] true 1) 1 4 = .error (.lib "EndOfStreamError") := by rfl
+example : GenK.eosTurn (Kernels.rdOf [1, 2, 3] true 1) 3 = .ok (some true, 3) := by rfl
+example : GenK.eosTurn (Kernels.rdOf [1, 2, 3] false 1) 3 = .ok (none, 3) := by rfl
+example : GenK.eosTurn (Kernels.rdOf [1, 2, 3] false 1) 1 = .ok (some false, 1) := by rfl
 
 /-- **no new errors**: an error under a schedule is the error of the complete input -/
 theorem no_new_errors (k : Kind) (hk : k.Stable) (B : Nat) (p : Prog ε α) (hp : p.NoReadAll)
